@@ -433,6 +433,13 @@ def run_walks(drv, rng, stats: Stats, on_fail, worlds, walks_per_world, steps, r
         for dd in sess.loader_diffs():
             on_fail("C03", "loader:" + dd.split(":")[0], f"scenario {sess.label}: loaded world differs from the scenario definition: {dd[:600]}",
                     {"kind": "loader", "scenario": sess.label, "difference": dd})
+            if dd.split(":")[0].strip().lower().startswith(("firewall", "fw")):
+                # the connections the loaded firewall allows ARE the precondition of every action (C02): a connection the
+                # scenario's rules do not allow must not let an action through
+                on_fail("C02", "loader-firewall:" + dd.split(":")[0], f"scenario {sess.label}: the loaded firewall differs from the scenario's rules, so actions are let through / refused where the scenario says otherwise: {dd[:500]}",
+                        {"kind": "loader", "scenario": sess.label, "difference": dd})
+        # C11: every datapoint that can ever appear in a view is one of the scenario's datapoints (all four fields)
+        universe = {(d.owner, d.id, d.size, d.type) for ds in sess.w._data.values() for d in ds}
         for wk_i in range(walks_per_world):
             nag = rng.choice([1, 1, 2, 3])
             wf = reachable_only or rng.random() < 0.7
@@ -520,6 +527,10 @@ def run_walks(drv, rng, stats: Stats, on_fail, worlds, walks_per_world, steps, r
                 new = rec.get("new")
                 if new is None:
                     continue
+                alien = [(str(k), (d.owner, d.id, d.size, d.type)) for k, ds in new.known_data.items() for d in ds if (d.owner, d.id, d.size, d.type) not in universe]
+                if alien and wf:
+                    on_fail("C11", "alien-datapoint:" + t, f"the view returned by {t} in {sess.label} holds datapoints that exist nowhere in the scenario: {alien[:3]}", replay_of(sess, rec))
+                    universe |= {a[1] for a in alien}
                 if rec.get("changed") and rec["pre"]:
                     stats.effective.add(hash(json.dumps([rec["view"], rec["action"]], sort_keys=True)))
                 if len(stats.samples) < 4 and rec.get("changed"):
